@@ -7,6 +7,7 @@ package main
 //	D_j/a            file   S3NT1NEL-<j>-a      (what `../a`, `../../a` … would reach)
 //	D_j/zsent_<j>    file   S3NT1NEL-<j>-z      (a name that exists only outside)
 //	D_j/zsent_d<j>/a file   S3NT1NEL-<j>-da
+//	D_j/inx/a        file   S3NT1NEL-<j>-xa     (sibling whose name extends the name `in` of the way down)
 //	D_j/in/          the next directory on the way
 //
 // (a disk bottom additionally has the host sentinels next to its root, see kind `disk`) — then the layers,
@@ -147,6 +148,9 @@ func (p *pre) tree(depth int) *pre {
 		p.call(0, "write", hp(prefix+"a"), hd(fmt.Sprintf("%s-%d-a", sentMark, j)))
 		p.call(0, "write", hp(fmt.Sprintf("%s%s_%d", prefix, sentName, j)), hd(fmt.Sprintf("%s-%d-z", sentMark, j)))
 		p.call(0, "write", hp(fmt.Sprintf("%s%s_d%d/a", prefix, sentName, j)), hd(fmt.Sprintf("%s-%d-da", sentMark, j)))
+		// a sibling whose NAME has the name of the next directory on the way as a string prefix (`in` / `inx`):
+		// what a containment test by plain string prefix would let through
+		p.call(0, "write", hp(prefix+"inx/a"), hd(fmt.Sprintf("%s-%d-xa", sentMark, j)))
 		p.call(0, "mkdir", hp(prefix+"in"))
 		prefix += "in/"
 	}
@@ -189,6 +193,7 @@ type stack struct {
 	layers int
 	ro     bool
 	cache  bool     // the stack contains a write-back cache
+	core   bool     // swept with the full number of segments also in the quick tier
 	lines  []string // after `reset`
 	child  int      // the view under test
 	twin   int      // its read-write twin (= child unless the stack contains a read-only mask)
@@ -197,7 +202,9 @@ type stack struct {
 	guard  string // the guard line (to re-baseline)
 }
 
-func mk(name, bottom string, depth int, build func(p *pre)) stack { return mkq(name, bottom, depth, false, build) }
+func mk(name, bottom string, depth int, build func(p *pre)) stack {
+	return mkq(name, bottom, depth, false, build)
+}
 
 func mkq(name, bottom string, depth int, qmode bool, build func(p *pre)) stack {
 	p := newPre(bottom)
@@ -214,6 +221,17 @@ func mkq(name, bottom string, depth int, qmode bool, build func(p *pre)) stack {
 
 // fixedStacks: the view stacks of the exhaustive sweep (every kind, views of views, depth up to 4)
 func fixedStacks() []stack {
+	core := map[string]bool{"mem.view": true, "mem.view.view": true, "mem.sub": true, "mem.sub.view": true,
+		"mem.view.wrap": true, "mem.ro.view": true, "mem.view.enc": true, "mem.wrap.sub.enc.view": true,
+		"mem.view.sub.ro.view": true}
+	l := fixedStackList()
+	for i := range l {
+		l[i].core = core[l[i].name]
+	}
+	return l
+}
+
+func fixedStackList() []stack {
 	return []stack{
 		mk("mem.root", "mem", 0, func(p *pre) {}),
 		mk("mem.view", "mem", 1, func(p *pre) { p.view("in") }),
